@@ -155,6 +155,12 @@ def _find_search_optimizations(filters):
     prohibited_ids = set()
 
     for filter_ in filters:
+        if isinstance(filter_.value, str) == (filter_.op == "in"):
+            # "in" with a plain string is a substring test, and "="/"!=" with
+            # a sequence never matches a string: neither can be turned into a
+            # set of directory names, so leave those to the full filter pass.
+            continue
+
         if filter_.property == "type":
             if filter_.op in ("=", "in"):
                 allowed_types = _update_allow(allowed_types, filter_.value)
